@@ -869,3 +869,157 @@ def r11(R):
     for v in vs[:1]:
         R.violation(v.node, v.message, g, v.path,
                     key='remembered oid of a weak reference not checked')
+
+
+# ----------------------------------------------------------------- C14.R12
+@rule('C14.R12', 'the importer looks an old oid up in its table of new oids '
+      'in ONE spelling: the bytes form is established after the reference '
+      'was taken apart, for every shape of reference (an all-ASCII oid '
+      'written by Python 2 arrives as str, alone or inside (oid, class))',
+      min_instances=1)
+def r12(R):
+    ei = R.prog.cls('ZODB.ExportImport.ExportImport')
+    outer = R.method(ei, '_importDuringCommit')
+    inner = [x for x in ast.walk(outer.node) if isinstance(
+        x, ast.FunctionDef) and x.name == 'persistent_load']
+    R.require(inner, 'the import\'s persistent_load vanished')
+    fn = inner[0]
+    oidvar = fn.args.args[0].arg
+    R.instance('ExportImport._importDuringCommit.persistent_load',
+               oid_local=oidvar)
+
+    def established(test):
+        return any(isinstance(c, ast.Call) and isinstance(
+            c.func, ast.Name) and c.func.id == 'isinstance' and c.args and
+            isinstance(c.args[0], ast.Name) and c.args[0].id == oidvar and
+            'bytes' in ast.unparse(c.args[1]) for c in ast.walk(test))
+
+    def uses_as_key(s):
+        for x in ast.walk(s):
+            if isinstance(x, ast.Subscript) and isinstance(
+                    x.slice, ast.Name) and x.slice.id == oidvar:
+                return x
+            if isinstance(x, ast.Compare) and len(x.ops) == 1 and \
+                    isinstance(x.ops[0], (ast.In, ast.NotIn)) and \
+                    isinstance(x.left, ast.Name) and x.left.id == oidvar:
+                return x
+        return None
+
+    def assigns(s):
+        return any(isinstance(t, ast.Name) and t.id == oidvar and isinstance(
+            t.ctx, ast.Store) for t in ast.walk(s))
+
+    # walk the body in order; an `if` whose test establishes the spelling
+    # counts only if it is not the `elif` of the taking-apart
+    def walk(block, known):
+        for s in block:
+            if isinstance(s, ast.If):
+                if established(s.test):
+                    # both branches leave the spelling established (the
+                    # body converts, the other branch is bytes already)
+                    known = True
+                    continue
+                kb = walk(s.body, known)
+                ko = walk(s.orelse, known)
+                if kb is None or ko is None:
+                    return None
+                known = kb and ko
+                continue
+            u = uses_as_key(s)
+            if u is not None and not known:
+                R.violation(
+                    (outer.module.relpath, outer.qualname,
+                     ' '.join(ast.unparse(u).split())[:80], u.lineno),
+                    'the importer uses `%s` as a key of its oid table on a '
+                    'path on which its bytes spelling was not established '
+                    'after the reference was taken apart: an all-ASCII oid '
+                    'that arrives as str inside an (oid, class) reference '
+                    'gets a second new oid -- one object is split in two, '
+                    'one reference dangles' % oidvar,
+                    key='oid used as a key without its spelling established')
+                return None
+            if assigns(s):
+                known = False
+        return known
+
+    walk(fn.body, False)
+
+
+# ----------------------------------------------------------------- C14.R13
+@rule('C14.R13', 'a reference is written with a database NAME only after '
+      'the name was held against the referrer\'s multi-database: it must '
+      'stand there for the target\'s database (sibling agreement of the '
+      'ordinary and the weak-reference branch of the writer)',
+      min_instances=1)
+def r13(R):
+    w = R.prog.cls(WRITER)
+    f = R.method(w, 'persistent_id')
+    g, b, F = R.cfg(f, w, max_depth=0)
+    seen = [0]
+
+    def names_db(e):
+        """the returned reference carries a database name"""
+        for x in ast.walk(e):
+            if isinstance(x, ast.Name) and x.id == 'database_name':
+                return True
+            if isinstance(x, ast.Attribute) and x.attr == 'database_name':
+                return True
+        return False
+
+    from ..flow import Flags
+    flags = Flags(F, lambda e, fr: 'dbname' if isinstance(e, ast.Name) and
+                  e.id == 'database_name' else None)
+
+    def edge(node, st0, lab, tgt):
+        st, fl = st0
+        fl = flags.learn(node, fl, lab)
+        if fl is PRUNE:
+            return PRUNE
+        if lab not in ('e', 'eb'):
+            fl = flags.assign(node, fl, lab)
+        return (edge1(node, st, lab, tgt), fl)
+
+    def edge1(node, st, lab, tgt):
+        if node.kind == 'test' and any(
+                isinstance(x, ast.Attribute) and x.attr == 'databases'
+                for x in ast.walk(node.ast)):
+            return True
+        # the ordinary branch: no database name at all on this path
+        if node.kind == 'test' and lab in ('T', 'F'):
+            for e, truth in implied_atoms(node.ast, lab):
+                if isinstance(e, ast.Compare) and len(e.ops) == 1 and \
+                        isinstance(e.left, ast.Name) and \
+                        e.left.id == 'database_name' and isinstance(
+                            e.comparators[0], ast.Constant) and \
+                        e.comparators[0].value is None and \
+                        isinstance(e.ops[0], ast.Is) == truth:
+                    return 'no-name'
+                if isinstance(e, ast.Name) and e.id == 'database_name' and \
+                        not truth:
+                    return 'no-name'
+        return st
+
+    def at(node, st):
+        if node.kind == 'return' and node.ast.value is not None and \
+                isinstance(node.ast.value, (ast.List, ast.Tuple)) and \
+                names_db(node.ast.value):
+            seen[0] += 1
+            if st[0] is not True and st[0] != 'no-name':
+                return Violation(
+                    'persistent_id writes a reference with a database name '
+                    '(`%s`) on a path that never held the name against the '
+                    'multi-database of the referrer: a reference into a '
+                    'FOREIGN database is stored; where both databases have '
+                    'the same name it is resolved in the referrer\'s own '
+                    'database -- to an unrelated object, silently' %
+                    ' '.join(ast.unparse(node.ast.value).split())[:60])
+        return st
+
+    vs, stats = explore(g, (False, frozenset()), at=at, edge=edge)
+    R.count(stats)
+    R.instance('ObjectWriter.persistent_id', named_returns=seen[0])
+    R.require(seen[0] >= 2 or vs, 'persistent_id no longer writes references '
+              'with a database name')
+    for v in vs[:1]:
+        R.violation(v.node, v.message, g, v.path,
+                    key='database name written unchecked')
